@@ -8,7 +8,7 @@ PROP = dict(
           "and started again on its directories at generated points (1-6 per case) and once more before the final operations. Every operation's outcome (incl. generated index names and identifiers) must be the same on "
           "both nodes; at every dump: all collection versions (JSON of the descriptions), indexes, every document as the owner and as a grantee, the commit history, P2P collections and replicators must be identical; "
           "at generated points (and before the last restart) the store directories of the running node are copied after a completed operation and a second node is opened on the copy: collection versions, indexes, documents as owner and grantee, commit history, served GraphQL types and the raw peer-configuration records must equal the running node's (crash-copy-differs); after the last restart further operations (index, document, new collection) are applied and compared; the abstract dump (collections with short identifiers, fields with short identifiers, indexes with identifiers, "
-          "document counts, peer configuration) is compared with the model; a case is one history; distinct = distinct histories"),
+          "document counts, peer configuration) is compared with the model; a case is one history; distinct = distinct histories; the dump lists the P2P collections whose topic the peer is not subscribed to; a directed case patches the schema of a P2P collection before restarting"),
     assumptions=[
         "restarts happen between operations; a close waits for the node's own shutdown path (node.Close); the store contents as of a completed operation WITHOUT a close are covered by the crash-copy comparison (files copied while the node runs; Badger's background compaction is assumed idle on these small stores); crash points INSIDE an operation at storage-commit boundaries are covered for the document store by C05's fault engine (atomicity of every operation), not replayed here as reopen points",
         "Badger's own recovery of a closed store directory is trusted",
